@@ -79,6 +79,38 @@ CHECKS["C14"] = dict(
          "and replayed deterministically from corpus/findings/C14.",
     technique="mutation-plan exploration of untrusted Sierra / felt vectors; TLA+ stage-protocol spec SierraPipeline as trace acceptor (TLC)",
     design_ref="3.12, 5/C14", engine="tlc+cvh")
+_SEM_NOTE = ("The reference semantics (specs/CairoSem) is my transcription of the language documentation and corelib behaviour for the modelled "
+             "subset (checked ints with corelib panic data, control flow, tuples/structs/Option, arrays, Felt252Dict, conversions, derived "
+             "PartialEq/Serde length); integers beyond a 2^30 window and fuel exhaustion are out of model and never compared. Programs come "
+             "from a seeded typed generator (check/semgen.py); compiler passes are bound end-to-end only.")
+CHECKS["C01"] = dict(
+    level="model_checking",
+    text="TLC interprets every generated (program, argument vector) case with the CairoSem reference semantics (TypePreservation checked on "
+         "every result) and emits the expected value or panic data; the real pipeline compiles the same programs (default configuration) and "
+         "runs them on the VM; every in-model case must yield exactly the reference value / panic data.",
+    note=_SEM_NOTE,
+    technique="TLA+ definitional interpreter CairoSem run by TLC as reference oracle; its results replayed against real compile+VM runs",
+    design_ref="3.5, 5/C01", engine="tlc+cvh")
+CHECKS["C05"] = dict(
+    level="model_checking",
+    text="The generated programs (reference result from CairoSem via TLC) and the scalar functions of the corpus are compiled and run under "
+         "every configuration point (quick: 8 points covering Optimizations::Disabled, inlining Default/Avoid/InlineSmallFunctions(0,50,10^6), "
+         "skip_const_folding, numeric-match threshold 0/2/100, LP solver; thorough: the 58-point lattice): all configurations must agree with "
+         "the reference and with each other on values and panic data.",
+    note=_SEM_NOTE + " Gas/steps ignored; Out-of-gas runs re-run with 100x gas, else excluded. The corelib's own test-suite is not run.",
+    technique="TLA+ reference semantics CairoSem (TLC) as configuration-free oracle; replay under the configuration lattice + cross-configuration comparison",
+    design_ref="3.5, 4, 5/C05", engine="tlc+cvh")
+CHECKS["C08"] = dict(
+    level="model_checking",
+    text="(a) every generated well-typed program is compiled under the optimisation lattice: no error diagnostics must imply that Sierra "
+         "generation, ProgramRegistry validation, metadata and CASM compilation all succeed; (b) TLC enumerates exhaustively all abstract "
+         "function bodies up to length 3 (quick) / 4 (thorough) over 15 ownership statement forms (move, snapshot use, conditional move, "
+         "move in a loop, early return, ... on a droppable and a non-droppable movable value), decides each with the Ownership specification's "
+         "static rule, and every body is rendered to Cairo and compiled: an illegal body must be rejected with an error (the legal ones must "
+         "compile - checked as a diagnostic; on the unchanged tree spec and compiler agree on all of them).",
+    note=_SEM_NOTE + " (b) covers two variables of struct type and the listed statement forms, not arbitrary programs.",
+    technique="TLA+ Ownership rule + exhaustive TLC enumeration of abstract bodies replayed into the real front end; generator-driven compile sweep over configurations",
+    design_ref="3.5, 5/C08", engine="tlc+cvh")
 
 NOT_YET = "check not built yet in this session (see DESIGN.md section 9 build order); no claim is made"
 
